@@ -310,6 +310,9 @@ def specs(tier):
             S.append(_spec('eax_check_tag', impl, size=50, var=v))
             if v != 'trunc':
                 S.append(_spec('ccm_check_tag', impl, size=50, var=v))
+    # ---- server ClientKeyExchange handling inside a real in-process handshake (harness ctrun_hs)
+    for sc in ['rsa_good', 'rsa_bad_pad', 'rsa_bad_sep', 'rsa_bad_version', 'ecdhe_good', 'ecdhe_bad_point', 'ecdh_good', 'ecdh_bad_point']:
+        S.append(_spec('hs_server_keyx', sc.split('_')[0], 3, scen=sc, harness='ctrun_hs'))
     # ---- primitives
     for p in PRIMS:
         S.append(_spec('prim_' + p, 'inner.h', 0.5, prim=1))
@@ -324,6 +327,8 @@ def _vg(xml):
 
 def mkjob(sp, flavour, seed, tier):
     args = [sp['entry']]
+    if sp.get('scen'):
+        args = [sp['scen']]
     for k in ('impl', 'curve', 'hash', 'var', 'size'):
         if sp.get(k) not in (None, ''):
             if k == 'impl' and sp.get('canary') or k == 'impl' and sp.get('prim'):
@@ -333,8 +338,11 @@ def mkjob(sp, flavour, seed, tier):
     name = '%s.%s.%s' % (tier[0], flavour, '_'.join(str(a) for a in args[:-2]).replace('--', '').replace(':', '+').replace('/', '-'))
     xml = os.path.join(XMLDIR, name + '.xml')
     tag = dict(entry=sp['entry'], impl=sp.get('impl', ''), canary=int(bool(sp.get('canary'))), xml=xml,
-               params={k: sp[k] for k in ('curve', 'hash', 'var', 'size') if sp.get(k) not in (None, '')})
-    return Job(name, 'ctrun', args, flavour=flavour, wrapper=_vg(xml), timeout=1500, tag=tag)
+               params={k: sp[k] for k in ('curve', 'hash', 'var', 'size', 'scen') if sp.get(k) not in (None, '')})
+    if sp.get('scen'):
+        name = '%s.%s.hs_%s' % (tier[0], flavour, sp['scen'])
+        tag['xml'] = xml = os.path.join(XMLDIR, name + '.xml')
+    return Job(name, sp.get('harness', 'ctrun'), args, flavour=flavour, wrapper=_vg(xml), timeout=1500, tag=tag)
 
 
 def jobs(tier, seed):
@@ -484,7 +492,7 @@ def on_job_done(job, rc, out, err, res):
         for w in job.wrapper:
             if w.startswith('--xml-file='):
                 xml = w[len('--xml-file='):]
-    case = 'flavour=%s cmd=ctrun %s' % (fl, ' '.join(job.args))
+    case = 'flavour=%s cmd=%s %s' % (fl, job.harness, ' '.join(job.args))
     sk = _field(out, 'SKIP')
     if sk is not None and rc == 0:
         res.stat('skipped_not_available', 1)
@@ -513,6 +521,12 @@ def on_job_done(job, rc, out, err, res):
             job.name, _field(out, 'DIGEST'), _field(nout, 'DIGEST')))
         return True
     res.stat('digests_equal', 1)
+    if _field(out, 'TAINTED') is not None:
+        # handshake harness self-check: the secret must have reached the master secret
+        if int(_field(out, 'TAINTED')) <= 0:
+            res.inconclusive.append('%s: taint did not reach the master secret' % job.name)
+            return True
+        res.stat('handshake_master_secret_tainted', 1)
     lib, har, other = classify(errors)
     nrep = sum(r['count'] for r in lib)
     res.stat('reports_total_dynamic', nrep + sum(r['count'] for r in har))
@@ -606,7 +620,10 @@ def coverage_extra(res, tier):
 # debugging aid:  python3 props/c08.py <flavour> <ctrun args...>   prints the classified reports of one run
 if __name__ == '__main__':
     fl = sys.argv[1]
-    b = vbuild.harness(fl, 'ctrun')
+    hn = 'ctrun'
+    if sys.argv[2].startswith('@'):
+        hn = sys.argv.pop(2)[1:]
+    b = vbuild.harness(fl, hn)
     xml = os.path.join(XMLDIR, 'debug.%d.xml' % os.getpid())
     p = subprocess.run(_vg(xml) + [b] + sys.argv[2:], stdout=subprocess.PIPE, stderr=subprocess.PIPE, cwd=vbuild.HERE)
     print(p.stdout.decode().strip())
